@@ -394,3 +394,6 @@ def check_twist(cm, pt):
     if not aff_on(got, m.b12):
         return dict(why="twist result not on E(F_p^12)", observed=enc_pt(got), expected="on curve")
     return None
+
+
+import closed  # noqa: E402,F401  (registers the closed-term facts)
